@@ -130,7 +130,7 @@ TEMPLATES = [ENV.from_string(s) for s in PROGRAMS]
 for _t in TEMPLATES:
     try:
         _t.render(o={"a": 1}, l=[{"a": 1}], k="a")
-    except LiquidError:
+    except Exception:  # noqa: BLE001
         pass
 
 
